@@ -42,7 +42,7 @@ CS = "krrood.entity_query_language.conclusion_selector"
 CACHE = "krrood.entity_query_language.cache_data"
 FUNCTIONS = [f for f in C01.FUNCTIONS if f[1].endswith("_evaluate__") or "evaluate_selected" in f[1] or "get_constrained_values" in f[1]] + [
     (HDM, "HashedIterable.__iter__"), (HDM, "HashedIterable.__post_init__"), (HDM, "HashedValue.__post_init__"),
-    (SYM, "ResultQuantifier.evaluate"), (SYM, "SymbolicExpression._start_evaluation_"), (CS, "ConclusionSelector._start_evaluation_"),
+    (SYM, "ResultQuantifier.evaluate"), (SYM, "ResultQuantifier._evaluate__"), (SYM, "The._evaluate__"), (SYM, "SymbolicExpression._start_evaluation_"), (CS, "ConclusionSelector._start_evaluation_"), (SYM, "OR._start_evaluation_"),
     (CACHE, "SeenSet.clear"), (CACHE, "SeenSet.add"), (CACHE, "SeenSet.check")]
 ASSUMPTIONS = [
     "one thread: another evaluation runs only while this one is suspended at a yield that reached the user",
@@ -58,7 +58,29 @@ BOUNDED_ONLY_CLAUSES = [
     "whole-query schedules (nested loops, alternating iterators, abandonment, rule trees) are measured by the bounded driver",
 ]
 
-SCRATCH_BOOL = ("_is_false_", "left_evaluated", "right_evaluated")
+import ast as _ast
+
+
+def scratch_fields(vm):
+    """Evaluation scratch state = every attribute some evaluation-time method of an expression class writes
+    (computed from the real source on every run: generator methods and the *_update_* / update_* helpers they use)."""
+    names = set()
+    for modname in (SYM, CS):
+        m = vm.loader.module(modname)
+        for c in m.classes.values():
+            for mname, fv in c.methods.items():
+                node = getattr(fv, "node", None)
+                if node is None or mname in ("__init__", "__post_init__") or "@" in mname:
+                    continue
+                is_gen = any(isinstance(n, (_ast.Yield, _ast.YieldFrom)) for n in _ast.walk(node))
+                if not (is_gen or "update" in mname):
+                    continue
+                for n in _ast.walk(node):
+                    if isinstance(n, _ast.Attribute) and isinstance(n.ctx, _ast.Store):
+                        names.add(n.attr)
+                    elif isinstance(n, _ast.AugAssign) and isinstance(n.target, _ast.Attribute):
+                        names.add(n.target.attr)
+    return names - {"_id_", "_child_", "left", "right", "_node_", "_var_"}
 
 
 def _is_expression(vm, o):
@@ -70,26 +92,34 @@ def _is_expression(vm, o):
         return False
 
 
-def havoc_scratch(vm, counter):
+def havoc_scratch(vm, counter, names):
     """what any other evaluation may have done to the shared expression nodes while this one was suspended"""
+    from pyvc.values import SInt
     ctx = vm.ctx
     foreign = None
     for o in list(vm.heap):
         if not _is_expression(vm, o):
             continue
-        for f in SCRATCH_BOOL:
-            if f in o.fields:
+        for f in names:
+            if f not in o.fields:
+                continue
+            cur = o.fields[f]
+            if isinstance(cur, (bool, SBool)):
                 o.fields[f] = SBool(ctx.fresh_bool(f"other_{f}_{next(counter)}"))
-        if "_eval_parent_" in o.fields:
-            if foreign is None:
-                foreign = vm.alloc(vm.loader.cls(SYM, "SymbolicExpression"), {"_id_": 990000 + next(counter)}, tag="parent-in-another-evaluation")
-            o.fields["_eval_parent_"] = foreign
+            elif isinstance(cur, (int, SInt)):
+                o.fields[f] = SInt(ctx.fresh_int(f"other_{f}_{next(counter)}"))
+            elif f == "_eval_parent_":
+                if foreign is None:
+                    foreign = vm.alloc(vm.loader.cls(SYM, "SymbolicExpression"), {"_id_": 990000 + next(counter)}, tag="parent-in-another-evaluation")
+                o.fields[f] = foreign
 
 
 def interfering(h):
     """the C01 harness `h` with interference after every yield that reaches its consumer"""
     def run(vm):
         counter = itertools.count()
+        names = scratch_fields(vm)
+        vm.ctx.inputs["scratch_fields"] = sorted(names)
         depth = [0]
         orig_iterate = vm.iterate
         orig_check = vm.ctx.check
@@ -104,7 +134,7 @@ def interfering(h):
                 try:
                     for x in orig_iterate(v):
                         yield x
-                        havoc_scratch(vm, counter)        # the consumer had control: anything may have run
+                        havoc_scratch(vm, counter, names)        # the consumer had control: anything may have run
                 finally:
                     depth[0] = 0
             else:
@@ -200,7 +230,9 @@ def h_evaluation_start():
         SeenSet = vm.loader.cls(CACHE, "SeenSet")
         ES = vm.loader.cls(CS, "ExceptIf")
         t, f = vm.call(SeenSet, [], {}), vm.call(SeenSet, [], {})
-        sel = vm.alloc(ES, {"concluded_before": make_dict([(True, t), (False, f)]), "_id_": 5}, tag="selector")
+        from pyvc.values import PySet
+        chosen = PySet(["a-conclusion-left-by-an-abandoned-evaluation"])
+        sel = vm.alloc(ES, {"concluded_before": make_dict([(True, t), (False, f)]), "_id_": 5, "_conclusion_": chosen}, tag="selector")
         # an earlier evaluation recorded something (through the real add)
         vm.call_method(t, "add", make_dict([(1, "a")]))
         vm.call_method(f, "add", make_dict([]))               # the empty assignment: 'everything seen'
@@ -210,6 +242,13 @@ def h_evaluation_start():
                     for s in (t, f))
         ctx.check("ConclusionSelector._start_evaluation_::forgets-what-earlier-evaluations-concluded", z3.BoolVal(seen_before and fresh),
                   detail=f"remembered before={seen_before}, forgotten after={fresh}")
+        ctx.check("ConclusionSelector._start_evaluation_::conclusions-selected-by-an-abandoned-evaluation-are-dropped", z3.BoolVal(chosen.items == []), detail=repr(chosen))
+        # OR nodes: operand flags of an abandoned evaluation are reset
+        nxt = vm.alloc(vm.loader.cls(CS, "Next"), {"concluded_before": make_dict([(True, vm.call(SeenSet, [], {})), (False, vm.call(SeenSet, [], {}))]), "_id_": 6,
+                                                   "_conclusion_": PySet([]), "left_evaluated": True, "right_evaluated": True}, tag="next-selector")
+        vm.call_method(nxt, "_start_evaluation_")
+        ctx.check("OR._start_evaluation_::operand-flags-of-an-abandoned-evaluation-are-reset",
+                  z3.BoolVal(nxt.fields["left_evaluated"] is False and nxt.fields["right_evaluated"] is False))
         same = vm._getattr(sel, "concluded_before")
         ctx.check("ConclusionSelector._start_evaluation_::both-truth-branches-are-reset",
                   z3.BoolVal(all(len(s.fields["constraints"].items) == 0 and len(s.fields["exact"].items) == 0 and s.fields["all_seen"] is False for s in (t, f))))
@@ -250,9 +289,15 @@ def h_canary():
     return Harness("canary", run, expect_fail=True)
 
 
+QUANTIFIER_HARNESSES = ["an-evaluate[none+var]", "an-evaluate[c]", "an-evaluate[c+upper+var]", "the-evaluate-stream[var]"]
+
+
 def harnesses():
+    from . import C09
     hs = {h.name: h for h in C01.harnesses()}
     out = [interfering(hs[n]) for n in OPERATOR_HARNESSES if n in hs]
+    hq = {h.name: h for h in C09.harnesses()}
+    out += [interfering(hq[n]) for n in QUANTIFIER_HARNESSES if n in hq]
     for n in range(0, 5):
         out.append(h_hashed_iterable(n, None))
     for n, d in ((2, 0), (3, 0), (3, 1), (4, 1)):
